@@ -78,6 +78,9 @@ static void build_cfgs(int rich)
   for (int v = 0; v < 4; v++) { ucfg_default(&c); c.all_filter = v; CFG[NCFG++] = c; }
   static const unsigned long FL[] = { HWLOC_TOPOLOGY_FLAG_INCLUDE_DISALLOWED, HWLOC_TOPOLOGY_FLAG_NO_DISTANCES, HWLOC_TOPOLOGY_FLAG_NO_MEMATTRS, HWLOC_TOPOLOGY_FLAG_NO_CPUKINDS, HWLOC_TOPOLOGY_FLAG_IMPORT_SUPPORT, HWLOC_TOPOLOGY_FLAG_DONT_CHANGE_BINDING };
   for (unsigned i = 0; i < 6; i++) { ucfg_default(&c); c.flags = FL[i]; CFG[NCFG++] = c; }
+  /* single (type, KEEP_NONE) deviations: a backend must obey the filter of exactly the type it is about to create */
+  { static const hwloc_obj_type_t TY[] = { HWLOC_OBJ_PACKAGE, HWLOC_OBJ_DIE, HWLOC_OBJ_CORE, HWLOC_OBJ_L1CACHE, HWLOC_OBJ_L2CACHE, HWLOC_OBJ_L3CACHE, HWLOC_OBJ_L1ICACHE, HWLOC_OBJ_GROUP, HWLOC_OBJ_MEMCACHE };
+    for (unsigned i = 0; i < sizeof(TY) / sizeof(TY[0]); i++) { ucfg_default(&c); c.filt[TY[i]] = HWLOC_TYPE_FILTER_KEEP_NONE; CFG[NCFG++] = c; } }
   if (rich) {
     for (unsigned i = 0; i < 6; i++) for (unsigned j = i + 1; j < 6; j++) { ucfg_default(&c); c.flags = FL[i] | FL[j]; CFG[NCFG++] = c; }
     ucfg_default(&c); c.all_filter = HWLOC_TYPE_FILTER_KEEP_ALL; c.flags = HWLOC_TOPOLOGY_FLAG_INCLUDE_DISALLOWED; CFG[NCFG++] = c;
